@@ -99,6 +99,7 @@ class PathMgr:
 
     # ------------------------------------------------------------------ path lifecycle
     def reset_path(self, decisions: List[int]) -> None:
+        del smt.KEEP[:]
         self.decisions: List[int] = list(decisions)
         self.pos = 0
         self.pc: List[Any] = []
